@@ -79,6 +79,8 @@ class Engine:
         self.trail = []
         self.pos = 0
         self.max_paths = max_paths
+        self.known = {}         # z3 ast id -> (trail index, value)
+        self.parent = _STACK[-1] if (_STACK and solver is not None) else None
 
     # -- solver access ----------------------------------------------------
     def _check(self):
@@ -99,6 +101,13 @@ class Engine:
 
     def decide(self, cond):
         """Branch on the (already simplified, non-constant) z3 Bool *cond*."""
+        cid = cond.get_id()
+        eng = self
+        while eng is not None:
+            hit = eng.known.get(cid)
+            if hit is not None and hit[0] < eng.pos:
+                return hit[1]       # already decided earlier on this path
+            eng = eng.parent
         if self.pos < len(self.trail):
             e = self.trail[self.pos]
             self.pos += 1
@@ -111,6 +120,7 @@ class Engine:
         self.s.push()
         self.s.add(cond)
         if self._check():
+            self.known[cid] = (len(self.trail), True)
             self.trail.append(_Entry('dec', True, True, cond))
             self.pos += 1
             return True
@@ -118,6 +128,7 @@ class Engine:
         # pc is satisfiable and pc & cond is not: the other side is forced
         self.s.push()
         self.s.add(z3.Not(cond))
+        self.known[cid] = (len(self.trail), False)
         self.trail.append(_Entry('dec', False, False, cond))
         self.pos += 1
         return False
@@ -147,11 +158,15 @@ class Engine:
         while self.trail:
             e = self.trail.pop()
             self.s.pop()
+            if e.kind == 'dec':
+                self.known.pop(e.cond.get_id(), None)
             if e.kind == 'dec' and e.flip:
                 ncond = z3.Not(e.cond) if e.val else e.cond
                 self.s.push()
                 self.s.add(ncond)
                 if self._check():
+                    self.known[e.cond.get_id()] = (len(self.trail),
+                                                   not e.val)
                     self.trail.append(_Entry('dec', not e.val, False, e.cond))
                     return True
                 self.s.pop()
@@ -161,6 +176,7 @@ class Engine:
         while self.trail:
             self.trail.pop()
             self.s.pop()
+        self.known.clear()
 
     def pc(self):
         conds = []
